@@ -20,6 +20,7 @@ import ast
 
 from ..engine.model import AnalysisError, src, walk_own
 from ..engine.flow import Flow
+from ..engine.inline import Inliner
 from ..engine.typestate import EventDomain
 from .common_ops import check_dunders, single_assignments, unwrap
 
@@ -227,7 +228,8 @@ class Checker:
                         m = _resolve(ast.parse(mom_src.pop(), mode='eval').body, assigns)
                         if isinstance(m, ast.Call) and isinstance(m.func, ast.Attribute) and m.func.attr == 'cross' and len(m.args) == 2:
                             a0, a1 = m.args
-                            if not (pos_p in src(a0) and src(a1) == force_p):
+                            il = Inliner(init)
+                            if not (pos_p in il.text(a0) and force_p not in il.text(a0) and il.text(a1) == force_p):
                                 ok = False
                                 msgs.append('moment is cross(%s, %s); must be cross(position, force)' % (src(a0), src(a1)))
                         else:
@@ -295,7 +297,7 @@ class Checker:
             for r in [x for x in walk_own(fi.node) if isinstance(x, ast.Return) and isinstance(x.value, ast.Call)]:
                 f = r.value.func
                 if isinstance(f, ast.Name) and f.id in ('Screw', 'Wrench') and len(r.value.args) >= 2:
-                    fr = src(r.value.args[1])
+                    fr = Inliner(fi).text(r.value.args[1])
                     rep.ob('R12.4', fi, 'result frame of ' + src(r.value)[:60], fr in ('self.frame_applied', 'self.frame_applied.copy()'),
                            'result is labelled with frame %s, not the left operand\'s' % fr, line=r.lineno)
         rep.floor('R12.4', 'frame reconciliation sites', n, 4)
